@@ -701,11 +701,20 @@ def rules(repo=None):
 
 EXPLANATION = (
     "R1: the metadata data file is opened with mode 'a', sample groups are made with create_group inside a try whose "
-    "ValueError handler raises, values are written only with create_dataset into the new group. R2: every _add_metadata call "
-    "from read passes is_edge True, or False only for files strictly between the first and last of the list; the filter is "
-    "the inclusive sample0 <= idx <= sample1; the forward-fill look-back is bounded above by the caller's start sample itself (not by a value clamped to the data bounds), for both values of the method parameter. R3: every sort/min/max over the string keys of a file uses an integer key, and the keys are never parsed into a signed 64-bit type (the writer names groups from uint64). "
-    "R4: exact integer placement in writer and reader (C13.R1). R5: writer and reader use the same recursive shape and UTF-8 (no astype(str) of byte arrays, which decodes as ASCII); None is written as ''. R6: the candidate-file filter of _get_file_list, as linear forms over (file timestamp, bound, cadence), is equivalent to bound_start <= ts <= bound_end for cadence-aligned timestamps, so the first and last list entries are the files holding the range ends (which R2's position-based is_edge relies on). "
-    "Does NOT decide value equality of arbitrary numpy/h5py conversions or the dict-of-arrays distribution rule.")
+    'ValueError handler raises, values are written only with create_dataset into the new group. R2: every _add_metadata '
+    'call from read passes is_edge True, or False only for files strictly between the first and last of the list; the '
+    "filter is the inclusive sample0 <= idx <= sample1; the forward-fill look-back is bounded above by the caller's start"
+    ' sample itself (not by a value clamped to the data bounds), for both values of the method parameter. R3: every '
+    'sort/min/max over the string keys of a file uses an integer key, and the keys are never parsed into a signed 64-bit '
+    'type (the writer names groups from uint64). R4: exact integer placement in writer and reader (C13.R1). R5: writer '
+    'and reader use the same recursive shape and UTF-8 (no astype(str) of byte arrays, which decodes as ASCII); None is '
+    "written as ''. R6: the candidate-file filter of _get_file_list, as linear forms over (file timestamp, bound, "
+    'cadence), is equivalent to bound_start <= ts <= bound_end for cadence-aligned timestamps, so the first and last list'
+    " entries are the files holding the range ends (which R2's position-based is_edge relies on). R5 also: every "
+    '.decode() of a stored value sits in a try whose UnicodeDecodeError handler keeps the bytes. R7: in read no Add / Sub'
+    " / augmented assignment is applied to a range parameter outside int(); the 'index' column of read_flatdict passes a "
+    'conversion to np.uint64 on its definition chain. Does NOT decide value equality of arbitrary numpy/h5py conversions '
+    'or the dict-of-arrays distribution rule.')
 TECHNIQUE = ("Python ast; table/idiom checks with def-use roles; linear forms for the candidate filter; shares C13's symbolic placement forms")
 ASSUMPTIONS = ["h5py: create_group raises ValueError on an existing name; mode 'a' never truncates; str is stored as UTF-8"]
 FILES = ["python/digital_rf/digital_metadata.py"]
